@@ -20,7 +20,7 @@ from vk.report import Report, std_args
 
 PROP = "C26"
 HARNESS = os.path.join(os.path.dirname(os.path.abspath(__file__)), "h26.py")
-NAMES = ["target", "two", "e1", "e2", "e3", "inc2", "inc3", "inc4", "out_ok", "pa", "pb", "pd", "ga", "gb", "opt", "wfail"]
+NAMES = ["target", "two", "e1", "e2", "e3", "inc2", "inc3", "inc4", "out_ok", "pa", "pb", "pd", "ga", "gb", "opt", "wfail", "inc5"]
 
 GOOD = "model {n}\n  Real x;\nequation\n  der(x) = -x;\nend {n};\n"
 NOFLAT = "model {n}\n  extends DoesNotExist;\n  Real x;\nequation\n  x = 1;\nend {n};\n"
@@ -31,7 +31,7 @@ def real_env(args):
     """Runs the real tool in a real directory for the flag vector; -> (exit status, expected) or None if
     the flags have no real-world counterpart (listener KeyError, generic generate exception kinds)."""
     a = dict(zip(NAMES, args))
-    if a["pa"] == 2 or a["pb"] == 2 or a["pd"] == 2:
+    if a["pa"] == 2 or a["pb"] == 2 or a["pd"] == 2 or a.get("inc5"):
         return None
     d = tempfile.mkdtemp(prefix="c26_")
     try:
@@ -72,7 +72,9 @@ def main():
         print("harness: exit status minus expected =", res)
         return 0 if res == 0 else 1
     rep = Report(PROP, a.tier, "model_checking", a.seed)
-    spec = [("cli", f"target={t},two={two},inc3={i3}") for t in range(3) for two in range(2) for i3 in range(2)]
+    spec = [("cli", f"target={t},two={two},inc3={i3},inc5=0") for t in range(3) for two in range(2) for i3 in range(2)]
+    spec += [("cli", f"target=2,two={two},inc3={i3},inc5=1") for two in range(2) for i3 in range(2)]  # three files with the model's stem
+    spec += [("twice", f"target={t}") for t in range(3)]
     spec += [("usage_shapes", ""), ("only_txt", ""), ("reach_cli", "target=0,two=1,inc3=0")]
     ct = 420 if a.tier == "quick" else 1500
     vs = chx.run(HARNESS, spec, jobs=a.jobs, cond_timeout=ct, path_timeout=60)
@@ -92,6 +94,8 @@ def main():
             args = [int(x) for x in re.findall(r"-?\d+", argtxt)]
         except Exception:
             args = []
+        if v.func == "cli" and len(args) == len(NAMES) - 1:
+            args.append(0)
         if v.func == "cli" and len(args) == len(NAMES):
             pins = dict(kv.split("=") for kv in v.pin.split(","))
             for k, val in pins.items():
@@ -115,7 +119,7 @@ def main():
                 res = getattr(h26, v.func)(*args)
             except Exception as e:
                 res = repr(e)
-            want = 1002 if v.func == "usage_shapes" else 1
+            want = 1002 if v.func == "usage_shapes" else (0 if v.func == "twice" else 1)
             if res != want:
                 rep.violation(f"{v.func}({argtxt})", f"{v.func}{tuple(args)} returned {res}, expected {want}", {"function": v.func, "args": args})
             else:
